@@ -859,4 +859,173 @@ theorem varops_are_left_folds (c : Cfg) (N : NumOps) (x y : Val) (rest : List Va
   rcases hp with rfl | rfl | rfl | rfl | rfl | rfl | rfl | rfl | rfl | rfl | rfl | rfl | rfl <;> rfl
 
 
+/-! ## int <-> double conversion is exact up to 2^53 -/
+
+theorem decode_fin_of (b s E f : Nat) (hs : s ≤ 1) (hE : 0 < E ∧ E < 2047) (hf : f < 4503599627370496)
+    (hb : b = s * 9223372036854775808 + E * 4503599627370496 + f) :
+    decode b = .fin (s == 1) (f + 4503599627370496) ((E : Int) - 1075) := by
+  have h1 : b / 9223372036854775808 % 2 = s := by omega
+  have h2 : b / 4503599627370496 % 2048 = E := by omega
+  have h3 : b % 4503599627370496 = f := by omega
+  unfold decode
+  simp only [h1, h2, h3]
+  rw [if_neg (by omega), if_neg (by omega)]
+  rfl
+
+/-- `(double) n` for |n| ≤ 2^53 is exact: encoding then decoding gives n back -/
+theorem decode_encodeInt (n : Int) (h : -two53 ≤ n ∧ n ≤ two53) : (decode (encodeInt n)).toInt? = some n := by
+  consts
+  by_cases h0 : n.natAbs = 0
+  · have : n = 0 := by omega
+    subst this
+    simp [encodeInt, encodeDyadic, decode, Dbl.toInt?, smant]
+  · unfold encodeInt encodeDyadic
+    simp only [if_neg h0, Int.add_zero, Int.ofNat_eq_natCast]
+    generalize ha : n.natAbs = a at *
+    have hl := Nat.log2_self_le h0
+    have hu := Nat.lt_log2_self (n := a)
+    have hL : a.log2 ≤ 53 := by
+      by_cases hc : a.log2 ≤ 53
+      · exact hc
+      · exfalso
+        have : 2 ^ 54 ≤ 2 ^ a.log2 := Nat.pow_le_pow_right (by decide) (by omega)
+        omega
+    generalize a.log2 = L at *
+    have hex : (-1022 : Int) ≤ (L : Int) := by omega
+    rw [if_pos hex, if_neg (by omega)]
+    have hs : (if decide (n < 0) = true then 9223372036854775808 else 0 : Nat) = (if n < 0 then 1 else 0) * 9223372036854775808 := by
+      by_cases hn : n < 0 <;> simp [hn]
+    by_cases hL52 : L ≤ 52
+    · have e1 : ((L : Int) ≤ 52) := by omega
+      rw [if_pos e1]
+      have e2 : ((52 : Int) - (L : Int)).toNat = 52 - L := by omega
+      rw [e2]
+      have hP : 2 ^ L * 2 ^ (52 - L) = 4503599627370496 := by
+        have : L + (52 - L) = 52 := by omega
+        rw [← Nat.pow_add, this]
+      have hP1 : 1 ≤ 2 ^ (52 - L) := Nat.two_pow_pos _
+      generalize hPdef : 2 ^ (52 - L) = P at *
+      have hm1 : 4503599627370496 ≤ a * P := by rw [← hP]; exact Nat.mul_le_mul_right _ hl
+      have hm2 : a * P < 9007199254740992 := by
+        have : a * P < 2 ^ (L + 1) * P := Nat.mul_lt_mul_of_pos_right hu (by omega)
+        rw [Nat.pow_succ, Nat.mul_right_comm, hP] at this; omega
+      have hmod : a * P % P = 0 := Nat.mul_mod_left a P
+      have hdiv : a * P / P = a := Nat.mul_div_cancel a (by omega)
+      generalize hm : a * P = m at *
+      have e3 : ((L : Int) + 1023).toNat = L + 1023 := by omega
+      rw [e3, hs, decode_fin_of _ (if n < 0 then 1 else 0) (L + 1023) (m - 4503599627370496) (by split <;> omega) (by omega) (by omega) (by omega)]
+      have e4 : m - 4503599627370496 + 4503599627370496 = m := by omega
+      rw [e4]
+      simp only [Dbl.toInt?]
+      by_cases hz : L = 52
+      · subst hz
+        have : P = 1 := by omega
+        subst this
+        simp [smant]
+        split <;> omega
+      · have e5 : ¬ (0 ≤ ((L + 1023 : Nat) : Int) - 1075) := by omega
+        have e6 : (-(((L + 1023 : Nat) : Int) - 1075)).toNat = 52 - L := by omega
+        rw [if_neg e5, e6, hPdef, hmod, hdiv]
+        simp only [if_true]
+        by_cases hn : n < 0 <;> simp [hn, smant] <;> omega
+    · have hL53 : L = 53 := by omega
+      subst hL53
+      have ha53 : a = 9007199254740992 := by
+        have : (2:Nat) ^ 53 = 9007199254740992 := by decide
+        omega
+      subst ha53
+      have e7 : (((53 : Nat) : Int) - 52).toNat = 1 := by omega
+      have e8 : (((53 : Nat) : Int) + 1023).toNat = 1076 := by omega
+      have e9 : ¬ (((53 : Nat) : Int) ≤ 52) := by omega
+      rw [hs]
+      simp only [e9, if_false, e7, e8]
+      rw [decode_fin_of _ (if n < 0 then 1 else 0) 1076 0 (by split <;> omega) (by omega) (by omega) (by omega)]
+      simp only [Dbl.toInt?]
+      by_cases hn : n < 0 <;> simp [hn, smant] <;> omega
+
+
+theorem unwrap_ofInt (n : Int) (h : -two53 ≤ n ∧ n ≤ two53) :
+    unwrapS (Val.ofInt n) = .ok n ∧ (0 ≤ n → unwrapU (Val.ofInt n) = .ok n) := by
+  have hd := decode_encodeInt n h
+  consts
+  constructor
+  · simp only [unwrapS, Val.ofInt, numToS64, hd, Gen.Int64.intMinDouble, Gen.Int64.intMaxDouble]
+    rw [if_pos (by omega)]
+  · intro h0
+    simp only [unwrapU, Val.ofInt, numToU64, hd, Gen.Int64.intMaxDouble]
+    rw [if_pos (by omega)]
+
+theorem toNumber_eval (c : Cfg) (N : NumOps) (v : Int) :
+    (-two53 ≤ v ∧ v ≤ two53 → evalFn c N "int/to-number" [.s64 v] = .ok (Val.ofInt v)) ∧
+    (v < -two53 ∨ two53 < v → evalFn c N "int/to-number" [.s64 v] = .err .tonum) ∧
+    (v ≤ two53 → evalFn c N "int/to-number" [.u64 v] = .ok (Val.ofInt v)) ∧
+    (two53 < v → evalFn c N "int/to-number" [.u64 v] = .err .tonum) := by
+  consts
+  refine ⟨fun h => ?_, fun h => ?_, fun h => ?_, fun h => ?_⟩ <;>
+    simp only [evalFn, Gen.Int64.intMaxInt64]
+  · rw [if_neg (by omega), if_neg (by omega)]
+  · by_cases h1 : v > 9007199254740992
+    · rw [if_pos h1]
+    · rw [if_neg h1, if_pos (by omega)]
+  · rw [if_neg (by omega)]
+  · rw [if_pos (by omega)]
+
+/-- the eight bytes written by `int/to-bytes` are bytes, and read back (little-endian) they give the 64-bit pattern of the
+    value — for every s64 / u64 -/
+theorem toBytes_round_trip (v : Int) :
+    (toBytesLE v).length = 8 ∧ (∀ b ∈ toBytesLE v, b < 256) ∧ (ofBytesLE (toBytesLE v) : Int) = wrapU v := by
+  have h0 : 0 ≤ wrapU v ∧ wrapU v < 18446744073709551616 := by consts; omega
+  unfold toBytesLE
+  generalize wrapU v = u at *
+  refine ⟨by simp, ?_, ?_⟩
+  · intro b hb
+    simp only [List.mem_map, List.mem_range] at hb
+    obtain ⟨i, _, rfl⟩ := hb
+    have : 0 ≤ u / 256 ^ i % 256 ∧ u / 256 ^ i % 256 < 256 := by omega
+    omega
+  · have hq : ∀ i : Nat, u / 256 ^ (i + 1) = (u / 256 ^ i) / 256 := fun i => by
+      rw [Int.pow_succ, Int.ediv_ediv_of_nonneg (Int.le_of_lt (Int.pow_pos (by decide)))]
+    have q1 := hq 0; have q2 := hq 1; have q3 := hq 2; have q4 := hq 3
+    have q5 := hq 4; have q6 := hq 5; have q7 := hq 6; have q8 := hq 7
+    have q0 : u / 256 ^ 0 = u := by simp
+    have h8 : u / 256 ^ (7 + 1) = 0 := by
+      have : (256 : Int) ^ (7 + 1) = 18446744073709551616 := by decide
+      rw [this]; omega
+    simp only [List.range, List.range.loop, List.map, ofBytesLE]
+    simp only [Nat.zero_add, Nat.reduceAdd] at *
+    generalize u / 256 ^ 0 = a0 at *
+    generalize u / 256 ^ 1 = a1 at *
+    generalize u / 256 ^ 2 = a2 at *
+    generalize u / 256 ^ 3 = a3 at *
+    generalize u / 256 ^ 4 = a4 at *
+    generalize u / 256 ^ 5 = a5 at *
+    generalize u / 256 ^ 6 = a6 at *
+    generalize u / 256 ^ 7 = a7 at *
+    generalize u / 256 ^ 8 = a8 at *
+    have e0 : (((a0 % 256).toNat : Nat) : Int) = a0 % 256 := Int.toNat_of_nonneg (by omega)
+    have e1 : (((a1 % 256).toNat : Nat) : Int) = a1 % 256 := Int.toNat_of_nonneg (by omega)
+    have e2 : (((a2 % 256).toNat : Nat) : Int) = a2 % 256 := Int.toNat_of_nonneg (by omega)
+    have e3 : (((a3 % 256).toNat : Nat) : Int) = a3 % 256 := Int.toNat_of_nonneg (by omega)
+    have e4 : (((a4 % 256).toNat : Nat) : Int) = a4 % 256 := Int.toNat_of_nonneg (by omega)
+    have e5 : (((a5 % 256).toNat : Nat) : Int) = a5 % 256 := Int.toNat_of_nonneg (by omega)
+    have e6 : (((a6 % 256).toNat : Nat) : Int) = a6 % 256 := Int.toNat_of_nonneg (by omega)
+    have e7 : (((a7 % 256).toNat : Nat) : Int) = a7 % 256 := Int.toNat_of_nonneg (by omega)
+    generalize (a0 % 256).toNat = b0 at *
+    generalize (a1 % 256).toNat = b1 at *
+    generalize (a2 % 256).toNat = b2 at *
+    generalize (a3 % 256).toNat = b3 at *
+    generalize (a4 % 256).toNat = b4 at *
+    generalize (a5 % 256).toNat = b5 at *
+    generalize (a6 % 256).toNat = b6 at *
+    generalize (a7 % 256).toNat = b7 at *
+    have d0 := Int.mul_ediv_add_emod a0 256; have d1 := Int.mul_ediv_add_emod a1 256
+    have d2 := Int.mul_ediv_add_emod a2 256; have d3 := Int.mul_ediv_add_emod a3 256
+    have d4 := Int.mul_ediv_add_emod a4 256; have d5 := Int.mul_ediv_add_emod a5 256
+    have d6 := Int.mul_ediv_add_emod a6 256; have d7 := Int.mul_ediv_add_emod a7 256
+    rw [← q1, ← e0] at d0; rw [← q2, ← e1] at d1; rw [← q3, ← e2] at d2; rw [← q4, ← e3] at d3
+    rw [← q5, ← e4] at d4; rw [← q6, ← e5] at d5; rw [← q7, ← e6] at d6; rw [← q8, ← e7] at d7
+    clear q1 q2 q3 q4 q5 q6 q7 q8 e0 e1 e2 e3 e4 e5 e6 e7 hq
+    omega
+
+
 end JanetModel.Int64
